@@ -4,7 +4,7 @@
    A goroutine running collectSpecs is a task with an id and the id of the task that spawned it:
      FEntry    about to take the mutex             (depth test, claim-or-return)
      FReading  its ReadHashBranch is in flight
-     FWaiting n e   in g.Wait(): n children have not returned yet, e = the first non-nil error a child
+     FWaiting e     in g.Wait() (over when none of its children is left), e = the first non-nil error a child
                     returned so far (errgroup keeps the first one)
    One scheduler choice runs one runnable task (FEntry / FReading) to its next yield point. A task that
    returns hands its result to its parent's errgroup at once; a parent whose last child returned returns
@@ -50,7 +50,7 @@ Definition body_fault (fl:faults) (f:idx) : bool :=
   match fl f with Some BodySyntax => true | _ => false end.
 Definition parse_fault (fl:faults) (f:idx) : bool := foreign_fault fl f || body_fault fl f.
 
-Inductive fphase := FEntry | FReading | FWaiting (pending:nat) (first:option err).
+Inductive fphase := FEntry | FReading | FWaiting (first:option err).
 Record ftask := { fid : nat; ff : idx; fdepth : nat; fpar : option nat; fph : fphase }.
 
 Record fstate := {
@@ -65,7 +65,7 @@ Definition finit (root:idx) : fstate :=
   {| fcl := []; ftasks := [{| fid := 0; ff := root; fdepth := 0; fpar := None; fph := FEntry |}];
      fnext := 1; froot := None; freads := [] |}.
 
-Definition runnable (t:ftask) : bool := match fph t with FEntry | FReading => true | FWaiting _ _ => false end.
+Definition runnable (t:ftask) : bool := match fph t with FEntry | FReading => true | FWaiting _ => false end.
 
 (* a task picked out of the list: (tasks before it, the task, tasks after it) *)
 Definition split := (list ftask * ftask * list ftask)%type.
@@ -99,6 +99,11 @@ Definition set_root (old:option (option err)) (r:option err) : option (option er
   | _, None => Some None
   end.
 
+(* g.Wait() of task pid is over when no goroutine it started is left (the WaitGroup counter is the number of
+   children that have not returned) *)
+Definition has_child (pid:nat) (l:list ftask) : bool :=
+  existsb (fun c => match fpar c with Some q => Nat.eqb q pid | None => false end) l.
+
 (* the result r of a returning task goes to the errgroup of task p (None: it was the outermost call) *)
 Fixpoint deliver (fuel:nat) (p:option nat) (r:option err) (tasks:list ftask) (root:option (option err))
   : list ftask * option (option err) :=
@@ -109,17 +114,16 @@ Fixpoint deliver (fuel:nat) (p:option nat) (r:option err) (tasks:list ftask) (ro
     | None => (tasks, set_root root r)                       (* unreachable: a parent outlives its children *)
     | Some (a, pt, b) =>
       match fph pt with
-      | FWaiting n e =>
+      | FWaiting e =>
           let e' := match e with Some _ => e | None => r end in   (* errgroup: the first error wins *)
-          match n with
-          | S (S m) => (a ++ with_phase pt (FWaiting (S m) e') :: b, root)
-          | _ =>                                                  (* the last child: g.Wait() returns *)
+          if has_child pid (a ++ b)
+          then (a ++ with_phase pt (FWaiting e') :: b, root)      (* other children are still running *)
+          else                                                    (* the last child: g.Wait() returns *)
               let res := match e' with Some x => Some (EWrap (ff pt) x) | None => None end in
               match fuel with
-              | 0 => (a ++ b, set_root root res)                  (* unreachable with fuel = number of tasks *)
+              | 0 => (a ++ b, set_root root res)                  (* unreachable with fuel >= number of tasks *)
               | S k => deliver k (fpar pt) res (a ++ b) root
               end
-          end
       | _ => (tasks, set_root root r)                             (* unreachable *)
       end
     end
@@ -168,10 +172,10 @@ Definition fstep_on (r:rules) (g:graph) (fl:faults) (maxd:nat) (s:fstate) (sp:sp
         | [] => finish s (a ++ b) t None cl rd                       (* importsInput.Len() == 0: return nil *)
         | _ =>
             {| fcl := cl;
-               ftasks := a ++ with_phase t (FWaiting (length kids) None) :: b ++ spawn (fid t) (S (fdepth t)) (fnext s) kids;
+               ftasks := a ++ with_phase t (FWaiting None) :: b ++ spawn (fid t) (S (fdepth t)) (fnext s) kids;
                fnext := fnext s + length kids; froot := froot s; freads := rd |}
         end
-  | FWaiting _ _ => s
+  | FWaiting _ => s
   end.
 
 (* one scheduler choice: runnable task number c (mod the number of runnable tasks) *)
